@@ -236,6 +236,7 @@ StepEvent(st, e) ==
              [] e.ev = "ask"     -> StepAsk(st, e)
              [] e.ev = "finish"  -> StepFinish(st, e)
              [] e.ev = "abort"   -> StepAbort(st, e)
+             [] e.ev = "overflow" -> Res(st, "work bound exceeded: the solve did not finish within the event budget (livelock or unbounded re-evaluation)")
              [] OTHER -> Res(st, "unknown event " \o e.ev)
   IN IF r.err # "" THEN r
      ELSE LET n == IF Terminal(r.s) \/ r.s.pc = "aborted" THEN r.s ELSE Norm(r.s, C)
